@@ -3381,8 +3381,12 @@ class LazyStackedTensorDict(TensorDictBase):
                     *self.tensordicts, stack_dim=dim1, stack_dim_name=self._td_dim_name
                 )
             else:
+                # the member dim dim1 - 1 takes the place of the stack dim, the dims
+                # in between shift by one (a transposition only if dim1 == dim0 + 2)
+                dims = list(range(self.ndim - 1))
+                dims.insert(dim0, dims.pop(dim1 - 1))
                 result = type(self)(
-                    *(td.transpose(dim0, dim1 - 1) for td in self.tensordicts),
+                    *(td.permute(dims) for td in self.tensordicts),
                     stack_dim=dim1,
                     stack_dim_name=self._td_dim_name,
                 )
@@ -3394,8 +3398,11 @@ class LazyStackedTensorDict(TensorDictBase):
                     *self.tensordicts, stack_dim=dim0, stack_dim_name=self._td_dim_name
                 )
             else:
+                # the member dim dim0 goes where the stack dim was
+                dims = list(range(self.ndim - 1))
+                dims.insert(dim1 - 1, dims.pop(dim0))
                 result = type(self)(
-                    *(td.transpose(dim0 + 1, dim1) for td in self.tensordicts),
+                    *(td.permute(dims) for td in self.tensordicts),
                     stack_dim=dim0,
                     stack_dim_name=self._td_dim_name,
                 )
